@@ -478,6 +478,10 @@ def RADIANS(
     return np.radians(float(angle))
 
 
+# Digits needed to hold any double (and any quotient of two doubles) exactly.
+_DECIMAL_PRECISION = 700
+
+
 def _finite(value):
     # Excel has no infinity: a result beyond the double range is #NUM!.
     if not np.isfinite(value):
@@ -488,6 +492,9 @@ def _finite(value):
 def _round(number, num_digits, _rounding=decimal.ROUND_HALF_UP):
     number = decimal.Decimal(str(number))
     with decimal.localcontext() as dc:
+        # Enough digits for any double: the default 28 digit context raises
+        # InvalidOperation for large magnitudes (e.g. ROUND(1E+30, 2)).
+        dc.prec = _DECIMAL_PRECISION
         dc.rounding = _rounding
         ans = round(number, int(num_digits))
     return float(ans)
